@@ -1,7 +1,7 @@
 // Harness for C13: drives (L1) the real urltree.URLTree (InsertDeclaredURL / Insert / Lookup),
-// (L2) config.BuildEndpointPolicyTree + EndpointPolicyTree.Lookup with the selection of
-// runner.getRemedies/getDiagnoses/shouldDiagnose (unexported: the five-line selection is repeated here on
-// the REAL lookup result and the REAL policy map), and (L3) the exported runner.DispatchOnRequest with
+// (L2) the production wiring config.BuildPolicyData (-> BuildEndpointPolicyTree) + the REAL
+// runner.getRemedies/getDiagnoses/shouldDiagnose (through runner/export_verif.go, build tag verif) +
+// EndpointPolicyTree.Lookup, and (L3) the exported runner.DispatchOnRequest with
 // fixed-response remedies, whose status code tells which remedy the dispatcher really selected.
 package main
 
@@ -17,6 +17,7 @@ import (
 	lunarMessages "lunar/engine/messages"
 	"lunar/engine/runner"
 	"lunar/engine/services"
+	"lunar/engine/utils"
 	sharedConfig "lunar/shared-model/config"
 	"lunar/toolkit-core/urltree"
 
@@ -290,13 +291,15 @@ func exec(c proto.Case, o *proto.Out) []string {
 					eps = append(eps, e)
 				}
 			}
-			pt, err := config.BuildEndpointPolicyTree(eps)
+			// the PRODUCTION wiring (YAML load / apply_policies): BuildPolicyData on a PoliciesConfig, which
+			// decides what reaches BuildEndpointPolicyTree
+			pd, err := config.BuildPolicyData(&sharedConfig.PoliciesConfig{Global: st.glob, Endpoints: eps}, false)
 			outs[i] = errClass(err)
 			o.Count("build-" + strings.SplitN(outs[i], ":other", 2)[0])
 			if err != nil {
 				st.pt = nil
 			} else {
-				st.pt = pt
+				st.pt = &pd.EndpointPolicyTree
 			}
 		case w[0] == "req" && len(w) == 3:
 			if st.pt == nil {
@@ -343,33 +346,36 @@ func kvParse[T any](w []string, k string, f func(string) (T, bool)) (T, bool) {
 
 // req = what runner.getRemedies / getDiagnoses / shouldDiagnose compute, on the real tree.
 func (st *state) req(method, url string, o *proto.Out) string {
-	lr := st.pt.Lookup(url)
-	val, pol := 0, "-"
+	// the REAL selection of the dispatcher (runner/export_verif.go, build tag verif) ...
 	var rem, diag, grem, gdiag []string
-	sd := false
-	for _, d := range st.glob.Diagnosis {
-		if d.Enabled {
-			sd = true
+	for _, sr := range runner.VerifGetRemedies(method, url, st.pt, &st.glob) {
+		if sr.Scope == utils.ScopeGlobal {
+			grem = append(grem, sr.Remedy.Name)
+		} else {
+			rem = append(rem, sr.Remedy.Name)
 		}
 	}
+	for _, sdg := range runner.VerifGetDiagnoses(method, url, st.pt, st.glob.Diagnosis) {
+		if sdg.Scope == utils.ScopeGlobal {
+			gdiag = append(gdiag, sdg.Diagnosis.Name)
+		} else {
+			diag = append(diag, sdg.Diagnosis.Name)
+		}
+	}
+	sd := runner.VerifShouldDiagnose(method, url, st.pt, &st.glob)
+	// ... and the lookup it is based on, for the policy URL, the normalised URL and the parameters
+	lr := st.pt.Lookup(url)
+	val, pol := 0, "-"
 	norm, params := "%e", "-"
 	if lr.Value != nil {
 		val = 1
 		norm, params = proto.Enc(lr.NormalizedURL), fmtParams(lr.PathParams)
 		if p, found := (*lr.Value)[urltree.Method(method)]; found {
 			pol = proto.Enc(p.URL)
-			for _, r := range p.Remedies {
-				if r.IsEnabled() {
-					rem = append(rem, r.Name)
-				}
-			}
-			for _, d := range p.Diagnosis {
-				if d.IsEnabled() {
-					diag = append(diag, d.Name)
-					sd = true
-				}
-			}
 			o.Count("req-policy")
+			if len(rem) == 0 && len(diag) == 0 {
+				o.Count("req-policy-nothing-enabled")
+			}
 		} else {
 			o.Count("req-value-other-method")
 		}
@@ -378,16 +384,6 @@ func (st *state) req(method, url string, o *proto.Out) string {
 		}
 	} else {
 		o.Count("req-none")
-	}
-	for _, r := range st.glob.Remedies {
-		if r.IsEnabled() {
-			grem = append(grem, r.Name)
-		}
-	}
-	for _, d := range st.glob.Diagnosis {
-		if d.IsEnabled() {
-			gdiag = append(gdiag, d.Name)
-		}
 	}
 	b := 0
 	if sd {
